@@ -3,6 +3,7 @@
 package conf
 
 import (
+	"reflect"
 	"encoding/json"
 	"fmt"
 	"sort"
@@ -109,6 +110,42 @@ func TestVerifC08(t *testing.T) {
 			if accepted[scope+"."+f.JSON] == 0 {
 				r.SetAdd("deprecated_parameters_never_accepted_alone", scope+"."+f.JSON)
 			}
+		}
+	}
+	// directed: a path that sets a parameter explicitly to its zero value while the path defaults hold another value
+	// (what the API returns for the path must carry the zero, or a replace would inherit the default)
+	for _, f := range verifPathFields {
+		if f.Deprecated {
+			continue
+		}
+		zero := ""
+		switch f.Type.Kind() {
+		case reflect.Int, reflect.Int64, reflect.Int32, reflect.Uint, reflect.Uint64, reflect.Uint32:
+			zero = "0"
+		case reflect.Bool:
+			zero = "false"
+		case reflect.String:
+			zero = `""`
+		default:
+			continue
+		}
+		for try := 0; try < 12; try++ {
+			val := verifGenJSON(rng, f.Type, f.GoName)
+			if val == zero || val == "null" {
+				continue
+			}
+			next := vmon.DeepCopy(base)
+			var opd, opp OptionalPath
+			if jsonwrapper.Unmarshal([]byte("{"+verifJSONString(f.JSON)+":"+val+"}"), &opd) != nil || jsonwrapper.Unmarshal([]byte("{"+verifJSONString(f.JSON)+":"+zero+"}"), &opp) != nil {
+				continue
+			}
+			next.PatchPathDefaults(&opd)
+			if next.AddPath("cam1", &opp) != nil || next.Validate(nil) != nil {
+				continue
+			}
+			directed = append(directed, next)
+			r.SetAdd("path_parameters_set_to_zero_over_a_non_zero_default", f.JSON)
+			break
 		}
 	}
 	for i := 0; i < n+len(directed); i++ {
